@@ -450,7 +450,7 @@ pub fn run(tier: Tier) -> i32 {
     // large shapes: two populations of 32 samples (65 x 65 = 4225 entries) and one of 2100 entries
     {
         let mut big: Vec<(Vec<Option<usize>>, CallSet, Vec<Vec<Cls>>, Container, String)> = Vec::new();
-        for (n, pops) in [(64usize, 2usize), (70, 1), (40, 3)] {
+        for (n, pops) in [(64usize, 2usize), (70, 1), (40, 3), (12, 6), (16, 8)] {
             let map: Vec<Option<usize>> = (0..n).map(|i| Some(i * pops / n)).collect();
             let classes = [Cls::G0, Cls::G1, Cls::G2, Cls::G0, Cls::G1, Cls::Missing, Cls::G2, Cls::G0, Cls::Multi];
             let rows_big: Vec<Vec<Cls>> = (0..40usize)
@@ -471,7 +471,7 @@ pub fn run(tier: Tier) -> i32 {
             name: "cli: large shapes".into(),
             evaluations: big.len() as u64,
             nontrivial: big.len() as u64,
-            note: "64 samples in 2 populations (65x65 = 4225 entries), 70 in one (141), 40 in three (27x27x29 = 21 141 entries); 40 records with missing / multiallelic genotypes in every fifth; vcf and bcf; every printed value compared".into(),
+            note: "64 samples in 2 populations (65x65 = 4225 entries), 70 in one (141), 40 in three (27x27x29 = 21 141 entries), 12 in six and 16 in eight populations (5^6 and 5^8 entries); 40 records with missing / multiallelic genotypes in every fifth; vcf and bcf; every printed value compared".into(),
             exhaustive: true,
             extra: vec![],
         });
